@@ -2571,6 +2571,9 @@ static iwrc _jbl_target_apply_patch(struct jbl_node *target, const struct jbl_pa
   if (!ex->from && ((op == JBP_MOVE) || (op == JBP_COPY) || (op == JBP_SWAP))) {
     return JBL_ERROR_PATCH_INVALID; // These operations need a `from` location
   }
+  if ((op == JBP_SWAP) && (ex->from->cnt == 0)) { // The whole document cannot change places with a part of itself
+    return JBL_ERROR_PATCH_TARGET_INVALID;
+  }
   if ((op == JBP_MOVE) && (ex->from->cnt < path->cnt)) { // rfc6902 4.4: a location cannot be moved into one of its children
     int i = 0;
     while (i < ex->from->cnt && !strcmp(ex->from->n[i], path->n[i])) {
